@@ -921,3 +921,98 @@ def stats(case, obs):
                     if o != 'ok':
                         h['outcome ' + o] += 1
     return h
+
+
+# ------------------------------------------------------------------------------------------------ corpus, shrinking
+def ghk_base(k, v0, form, style, P=3, ode=False, unit_factor=None):
+    """one GHK equation x = P·form(U) through the C12 builder; `ode`: the pattern sits in dV/dt behind 1 [mV_per_ms]"""
+    c = G.single_case(Fraction(k), Fraction(v0), form, style, P)
+    for e in c['eqs']:
+        e.pop('probe', None)
+    if ode:
+        t = dict(c['eqs'][0]['terms'][0])
+        core = c['eqs'][0]['rhs'][2]
+        c['ode'] = {'rhs': ['mul', G.q(1, 'mV_per_ms'), core], 'terms': [t]}
+    return {'kind': 'ghk', 'case': c}
+
+
+def corpus():
+    out = []
+    sing = ['sing', 0, ['V', 0], []]
+    # the witness of commit 50d6d1a (string units after singularity removal), alone and inside a history
+    out.append({'base': ghk_base('1/2', 5, 0, 'kv0'), 'second': None, 'steps': [sing]})
+    out.append({'base': ghk_base('-1/8', '15/2', 2, 'plus'), 'second': 'shared',
+                'steps': [['sing', 1, ['V', 0], []], sing, ['conv', 0, ['V', 0], ['scaled', '1/1000'], 'IN'], ['fixAll', 0],
+                          ['sing', 0, ['V', 0], []]]})
+    # a factor 1 that carries a unit must survive singularity removal
+    out.append({'base': ghk_base('1/2', 5, 1, 'kv0', ode=True), 'second': None, 'steps': [sing]})
+    out.append({'base': {'kind': 'file', 'name': 'beeler_reuter_model_1977'}, 'second': None, 'steps': [sing, ['fixAll', 0]]})
+    out.append({'base': {'kind': 'file', 'name': 'aslanidi_model_2009'}, 'second': 'separate',
+                'steps': [sing, ['conv', 0, ['V', 0], ['compat', 0], 'IN'], ['conv', 0, ['free', 0], ['compat', 1], 'IN']]})
+    # every kind of convert_variable on a small model, then the write-back pass
+    for role in ('state', 'free', 'const', 'computed'):
+        for d in ('IN', 'OUT'):
+            out.append({'base': ghk_base('1/2', 5, 3, 'minus'), 'second': None,
+                        'steps': [['conv', 0, [role, 0], ['scaled', '1000'], d], ['fixAll', 0], sing]})
+    # the controls: what the scan must see
+    for kind in ('string', 'foreign', 'missing', 'notunit'):
+        out.append({'base': ghk_base('1/2', 5, 0, 'kv0'), 'second': None, 'steps': [['raw', 0, kind]]})
+    return out
+
+
+def shrink(violation):
+    """drop steps (last first) while a failure with the same key remains; then try without the second model"""
+    case, key = violation['case'], violation['failures'][0]['key']
+
+    def still(c):
+        o = impl(c)
+        fs = [f for f in oracle(c, o) if f['key'] == key]
+        return (o, fs) if fs else None
+    best = None
+    steps = list(case['steps'])
+    i = len(steps) - 1
+    while i >= 0 and len(steps) > 1:
+        trial = dict(case, steps=steps[:i] + steps[i + 1:])
+        r = still(trial)
+        if r:
+            steps = trial['steps']
+            best = (trial, r)
+        i -= 1
+    cur = best[0] if best else case
+    if cur.get('second') and all(s[1] == 0 for s in cur['steps']):
+        trial = dict(cur, second=None)
+        r = still(trial)
+        if r:
+            best = (trial, r)
+    if not best:
+        return None
+    return {'case': best[0], 'failures': best[1][1], 'obs': best[1][0]}
+
+
+MANIFEST = {
+    'technique': 'Lean 4 invariant over an object-identity model of the creation sites + histories on the real code '
+                 '(differential correspondence of unit classes and created objects, independent atom scan)',
+    'text': ('Proved in Lean (lean/Cellml/Props/C18.lean, standard axioms only): a model state is a registry id, the pool '
+             'of every Quantity / Variable object the model ever showed with the unit each carries (unit of the store / '
+             'bare string / foreign / missing) and the equations as lists of objects; every creation site of the library '
+             '(cn literals, connection factors, transform_constants, create_quantity, add_variable, the factor and the '
+             'variables of convert_variable, maybe_convert_expr, the bounds and ONE of singularity removal) is a function '
+             'to the unit it hangs on the new atom. AllUnits (every atom of every equation has a unit of the store) holds '
+             'after loading (allunits_load), is preserved by every operation (allunits_step; for library operations '
+             'without hypothesis, inv_step_library; for user equations under the documented contract of add_equation), '
+             'hence after every history (allunits_reachable, induction over the list) and for several models in one '
+             'process (inv_world); the factory returns units of the store or refuses (createQuantity_ofStore, '
+             'createQuantity_refuses); the code before commit 50d6d1a plants strings (today_plants_strings, decide) and '
+             'the contract is needed (contract_needed). Against the C04 model of UnitCalculator.traverse: every failure '
+             'is a UnitError or one of three magnitude-arithmetic exceptions (infer_total_class), none without power / '
+             'derivative / floor / exp (infer_total_class_strict). Tie: histories of 1-6 operations on loaded documents, '
+             'API-built GHK models, expression models and two bundled models; after every operation the unit class of '
+             'every atom, the objects created (convert_variable: exactly the factor, the converted variable and the '
+             '_orig_deriv variables the model predicts), the loader origin of every loaded quantity; the oracle scans '
+             'every atom and runs evaluate_units / convert_expression_recursively on every equation.'),
+    'note': ('The Lean model is deliberately small: which site created a new object is decided by the operation that '
+             'was running (the unit class is observed). Inference outcomes other than UnitError that come from '
+             'arithmetic on magnitudes (ZeroDivisionError, OverflowError, TypeError) are the known findings of C04 and '
+             'are listed as known here with C18 witnesses. Symbolic range bounds get the voltage unit number by number, '
+             'which makes the repaired equation dimensionally inconsistent (known finding: UnitError, not a crash).'),
+}
